@@ -27,6 +27,7 @@ META = {
         "payload; firing a one-shot removes the first entry of that task with that time and nothing else; firing a cron entry "
         "removes nothing. states/transitions are those of the BFS in (B) plus one state per on_ready case in (A)."
         " Entry lists of one task: all lists of 3 over {t1, t2, cron} (equal times adjacent, apart, all three); thorough: lists of 4 with at least two equal times."
+        " One entry declares its positional arguments as a tuple."
     ),
     "assumptions": ["tasks are registered on fresh brokers per case; the global shared-task registry is restored after each case"],
     "required_counters": ["on_ready_cases", "label_source_task_sets", "firings"],
@@ -45,6 +46,7 @@ ENTRY_ALPHA: Dict[str, Dict[str, Any]] = {
     "cronL": {"cron": "0 0 * * *", "labels": {"el": "x"}, "args": [1], "kwargs": {"k": 2}, "cron_offset": "Europe/Berlin"},
     "t1A": {"time": T1, "args": [5], "labels": {"el": 1}},
     "t2D": {"time": T2, "args": ["@dataclass"], "kwargs": {"m": "@model"}},  # declared with a dataclass / pydantic model argument
+    "t1T": {"time": T1, "args": (7, "x"), "kwargs": {"k": 3}},  # positional arguments declared as a tuple
 }
 
 
@@ -191,7 +193,7 @@ def task_sets(tier: str) -> List[Tuple[Tuple[str, ...], ...]]:
     for n in range(1, k + 1):
         lists += list(itertools.product(names, repeat=n))
     if tier == "quick":
-        lists += [("t1A", "t1", "t1"), ("t2", "t1", "t1A"), ("none", "t1", "cronL")]
+        lists += [("t1A", "t1", "t1"), ("t2", "t1", "t1A"), ("none", "t1", "cronL"), ("t1T", "t2", "t1T")]
         lists += list(itertools.product(("t1", "t2", "cron"), repeat=3))  # equal times apart, adjacent, all three
     else:
         lists += [l for l in itertools.product(("t1", "t2", "cron"), repeat=4) if l.count("t1") >= 2]
@@ -272,7 +274,7 @@ def _ref_listing(ref_lists: List[List[Dict[str, Any]]]) -> List[Tuple[Any, ...]]
         for e in entries:
             if "cron" not in e and "time" not in e:
                 continue
-            out.append((f"own:{i}", e.get("cron"), e.get("time"), e.get("args", []), e.get("kwargs", {}), e.get("cron_offset"),
+            out.append((f"own:{i}", e.get("cron"), e.get("time"), list(e.get("args", [])), e.get("kwargs", {}), e.get("cron_offset"),
                         tuple(sorted((e.get("labels") or {}).items(), key=repr)), f"task{i}"))
     return out
 
